@@ -23,7 +23,7 @@ def run(chk):
     rd = tlc.new_rundir("C12")
     try:
         picked = []
-        for name, maxvar, stride in plans(chk.tier):
+        for name, maxvar, stride in progcheck.dev_filter(plans(chk.tier)):
             kw = dict(progcheck.CORPORA[name])
             keep = kw.pop("keep", None)
             kw.pop("observe_all", None)
